@@ -4,10 +4,13 @@
    dot = 46; every split at a dot that the Go code performs on strings is performed here on the
    byte list.
 
-   The model mirrors the code AS IT IS.  In particular fileScope walks all package prefixes inside
-   ONE scope and returns the first non-nil descriptor, so the onlyTypes filter of result.resolve is
-   never applied between two package levels.  [go_resolve_fixed] is the same algorithm with one
-   scope per package prefix (the proposed repair); it is used only by the theorems about the repair. *)
+   [go_resolve] mirrors the code as it is after the fix fixes/C15-resolve-scope.diff: the scope
+   function takes skipNonTypes (= onlyTypes && firstName == name) and the file scope itself moves
+   on to the next package level when a match is not a type (file_scope_loop_skip, run_scope_skip,
+   resolve_loop_skip).  [go_resolve_old] is the code before the fix (fileScope returned the first
+   non-nil match of any package level, so the onlyTypes filter was never applied between two
+   package levels); it is kept for the historical refutation.  [go_resolve_fixed] (one scope per
+   package prefix) is a proof device: it gives the same answers as go_resolve. *)
 From Coq Require Import List NArith Bool Arith.
 Import ListNotations.
 
@@ -193,7 +196,7 @@ Definition run_scope (U : universe) (sc : scope) (firstName fullName : name) : g
   match sc with
   | ScFile => file_scope U firstName fullName
   | ScMsg m => message_scope U m firstName fullName
-  | ScPrefix p => file_scope_step U p firstName fullName      (* only in the repaired variant *)
+  | ScPrefix p => file_scope_step U p firstName fullName      (* only in go_resolve_fixed *)
   end.
 
 (* the loop of result.resolve, innermost scope first; [best] is bestGuess *)
@@ -235,10 +238,10 @@ Fixpoint msg_fqns (parent : name) (path : list name) : list name :=
 Definition scopes_for (U : universe) (path : list name) : list scope :=
   ScFile :: map ScMsg (msg_fqns (f_pkg (u_self U)) path).
 
-Definition go_resolve (U : universe) (path : list name) (nm : name) (onlyTypes : bool) : gres :=
+Definition go_resolve_old (U : universe) (path : list name) (nm : name) (onlyTypes : bool) : gres :=
   resolve U nm onlyTypes (scopes_for U path).
 
-(* ---- the proposed repair: one scope per package prefix, outermost (the empty prefix) first ---- *)
+(* ---- proof device: one scope per package prefix, outermost (the empty prefix) first ---- *)
 Definition scopes_for_fixed (U : universe) (path : list name) : list scope :=
   map ScPrefix (rev (create_prefix_list (f_pkg (u_self U)))) ++
   map ScMsg (msg_fqns (f_pkg (u_self U)) path).
@@ -246,9 +249,9 @@ Definition scopes_for_fixed (U : universe) (path : list name) : list scope :=
 Definition go_resolve_fixed (U : universe) (path : list name) (nm : name) (onlyTypes : bool) : gres :=
   resolve U nm onlyTypes (scopes_for_fixed U path).
 
-(* ---- the same repair in the form proposed as a patch: the scope function takes a flag
-   skipNonTypes (= onlyTypes && firstName == name) and the file scope itself moves on to the next
-   package level when a match is not a type, remembering the first such match ---- *)
+(* ---- the code after the fix: the scope function takes a flag skipNonTypes
+   (= onlyTypes && firstName == name) and the file scope itself moves on to the next package
+   level when a match is not a type, remembering the first such match ---- *)
 Fixpoint file_scope_loop_skip (U : universe) (prefixes : list name) (firstName fullName : name)
          (skipNonTypes : bool) (bestGuess : gres) : gres :=
   match prefixes with
@@ -282,7 +285,7 @@ Fixpoint resolve_loop_skip (U : universe) (firstName nm : name) (onlyTypes : boo
     end
   end.
 
-Definition go_resolve_skip (U : universe) (path : list name) (nm : name) (onlyTypes : bool) : gres :=
+Definition go_resolve (U : universe) (path : list name) (nm : name) (onlyTypes : bool) : gres :=
   if starts_with_dot nm then resolve_element U (tl nm)
   else resolve_loop_skip U (first_name nm) nm onlyTypes (rev (scopes_for U path)) GNil.
 
